@@ -3,7 +3,7 @@ import json, os, re
 import cybuild
 
 TITLE = "Comparisons and membership tests match CPython"
-EXTRACTS = ["Cmp", "CmpInt"]
+EXTRACTS = ["Cmp", "CmpInt", "CmpFloat"]
 RULE = ("four generators. (1) cascades of 1-4 comparison links whose operands are logging calls (Python "
         "objects, C int / C double calls, instrumented objects whose rich comparisons return objects with a "
         "logging/raising __bool__) over all ten comparison operators; (2) `in`/`not in` tests against tuple/"
@@ -1311,6 +1311,8 @@ print(json.dumps(out))
 II_OPS = [("lt", "<"), ("le", "<="), ("eq", "=="), ("ne", "!="), ("gt", ">"), ("ge", ">=")]     # model order
 II_TYPINGS = [("oo", "a, b"), ("ii", "a: int, b: int"), ("io", "a: int, b"), ("oi", "a, b: int")]
 II_CHAINS = [(0, 1), (2, 3), (5, 4), (1, 2), (3, 0), (4, 5)]      # every operator as first and as second link
+# part 5 (float against int): typed variants that exist besides oo / oi / io of II_TYPINGS
+FI_TYPINGS = [("fi", "a: float, b: int"), ("fo", "a: float, b"), ("if", "a: int, b: float"), ("of", "a, b: float")]
 II_BRANCH = {1: "sign", 2: "size", 3: "zero", 4: "one-digit", 5: "two-digit-join", 6: "digit-loop",
              7: "longlong", 8: "overflow-flags-differ", 9: "richcompare-fallback"}
 SH = 30
@@ -1342,6 +1344,10 @@ def ii_source():
     for k, (o1, o2) in enumerate(II_CHAINS):
         L.append("def ch%d_oo(a, b, c):\n    return a %s b %s c\n" % (k, II_OPS[o1][1], II_OPS[o2][1]))
         L.append("def ch%d_ii(a: int, b: int, c: int):\n    return a %s b %s c\n" % (k, II_OPS[o1][1], II_OPS[o2][1]))
+    for on, sym in II_OPS:
+        for tn, sig in FI_TYPINGS:
+            L.append("def o_%s_%s(%s):\n    return a %s b\n" % (on, tn, sig, sym))
+            L.append("def b_%s_%s(%s):\n    if a %s b:\n        return 1\n    return 0\n" % (on, tn, sig, sym))
     L.append("def mem_in_oo(a, b, c):\n    return a in (b, c)\n")
     L.append("def mem_ni_oo(a, b, c):\n    return a not in (b, c)\n")
     L.append("def mem_in_ii(a: int, b: int, c: int):\n    return a in (b, c)\n")
@@ -1647,6 +1653,238 @@ def _ii_fn_source(src, fname):
 
 
 # ------------------------------------------------------------------------------------------------
+# part 5: PyObjectCompare on an exact float and an exact int (Optimize.c
+#         __Pyx_PyObject_CompareFloatInt<Op> / __Pyx_PyObject_CompareIntFloat<Op>) + float-float
+# ------------------------------------------------------------------------------------------------
+FI_BRANCH = {0: "float-float", 1: "compact-int", 2: "non-finite", 3: "opposite-signs", 4: "same-sign-small-float",
+             5: "richcompare-fallback", 6: "non-finite", 7: "long-below-2^53-as-double", 8: "overflow-flag-small-float",
+             9: "richcompare-fallback"}
+# functions called with (float, int), with (int, float), with (float, float)
+FI_FNS = {"fi": ["oo", "oi", "fi", "fo"], "if": ["oo", "io", "if", "of"], "ff": ["oo", "fo", "of"]}
+
+FI_WORKER = r"""
+import sys, json
+spec = json.load(sys.stdin)
+m = __import__(spec["module"])
+fns = {d: [getattr(m, n) for n in names] for d, names in spec["fns"].items()}
+def mkf(s):
+    return float(s) if s in ("nan", "inf", "-inf") else float.fromhex(s)
+def enc(r):
+    if r is True or (type(r) is int and r == 1): return "1"
+    if r is False or (type(r) is int and r == 0): return "0"
+    return "?"
+def call(f, a, b):
+    try:
+        return enc(f(a, b))
+    except Exception as e:
+        return "E"
+out = []
+for d, sa, sb in spec["pairs"]:
+    # operands are created per pair: never a shared constant, never one object twice
+    a = mkf(sa) if d[0] == "f" else int(sa)
+    b = mkf(sb) if d[1] == "f" else int(sb)
+    out.append("".join(call(f, a, b) for f in fns[d]))
+print(json.dumps(out))
+"""
+
+
+def fi_fn_names(d):
+    return ["%s_%s_%s" % (k, on, tn) for on, _ in II_OPS for tn in FI_FNS[d] for k in ("o", "b")]
+
+
+def f_tok(f):
+    """(worker token, model token) of a float"""
+    if f != f:
+        return "nan", "nan"
+    if f in (float("inf"), float("-inf")):
+        return ("inf", "inf") if f > 0 else ("-inf", "-inf")
+    n, d = f.as_integer_ratio()
+    return f.hex(), "%d/%d" % (n, d.bit_length() - 1)
+
+
+def exact_ops(a, b):
+    """the six operators on the VALUES, by integer arithmetic only (floats as n/d, d > 0)"""
+    def rat(x):
+        if isinstance(x, float):
+            if x != x:
+                return None
+            if x in (float("inf"), float("-inf")):
+                return (1 if x > 0 else -1, 0)
+            return x.as_integer_ratio()
+        return (x, 1)
+    ra, rb = rat(a), rat(b)
+    if ra is None or rb is None:
+        return "000100"
+    if ra[1] == 0 or rb[1] == 0:
+        l, r = (ra[0] if ra[1] == 0 else 0), (rb[0] if rb[1] == 0 else 0)
+    else:
+        l, r = ra[0] * rb[1], rb[0] * ra[1]
+    return "".join("1" if x else "0" for x in (l < r, l <= r, l == r, l != r, l > r, l >= r))
+
+
+def _nextafter(f, up):
+    import math
+    return math.nextafter(f, float("inf") if up else float("-inf"))
+
+
+def fi_int_boundaries():
+    B = {0, 1, 2, 3, 255, 10 ** 320, 2 ** 120 + 2 ** 70, 2 ** 1024 - 2 ** 970, 2 ** 1024 - 2 ** 970 + 1, 2 ** 1024 - 2 ** 970 - 1}
+    for e in (29, 30, 31, 32, 52, 53, 54, 59, 60, 61, 62, 63, 64, 89, 90, 91, 1023, 1024):
+        for d in (-2, -1, 0, 1, 2):
+            B.add((1 << e) + d)
+    return sorted(B | {-v for v in B})
+
+
+def fi_float_boundaries():
+    F = {0.0, 5e-324, 2.2250738585072014e-308, 0.1, 0.5, 1.0, 1.5, 2.0, 2.5, 3.0, 255.5, 1000.25, 1e18, 1e30, 1e300,
+         1.7976931348623157e308, float(2 ** 120 + 2 ** 70)}
+    for e in (29, 30, 31, 32, 52, 53, 54, 59, 60, 61, 62, 63, 64, 89, 90, 1023):
+        x = float(2 ** e)
+        F |= {x, _nextafter(x, True), _nextafter(x, False), x + 1.0, x - 1.0, x + 0.5, x - 0.5}
+    out = sorted(F | {-x for x in F})
+    return out + [-0.0, float("inf"), float("-inf"), float("nan")]
+
+
+def gen_float_int_pairs(rng, quick):
+    """-> list of (dir, a, b, family); dir in fi / if / ff.  Classes: int sign x digit count 0,1,2,3,4+ ;
+    float sign x magnitude against 1, 2^30 (digit), 2^53 (mantissa), 2^63/2^64 (long), DBL_MAX, inf, nan;
+    equal values, neighbours of equal values (one ulp / one unit apart)"""
+    P = []
+    def add(f, i, fam):
+        P.append(("fi", f, i, fam)); P.append(("if", i, f, fam))
+    IB, FB = fi_int_boundaries(), fi_float_boundaries()
+    # (2) every sign x digit class against every float region, the case of small floats against
+    #     multi-digit ints of the same sign and of the other sign included
+    sizes = [1, 2, 3, 4, 7] if quick else [1, 2, 3, 4, 5, 6, 8, 12, 20, 36]
+    small = [0.0, -0.0, 0.25, -0.25, 1.5, -1.5, 1000.25, -1000.25, float(2 ** 30) - 0.5, 0.5 - float(2 ** 30),
+             float(2 ** 30), -float(2 ** 30), float(2 ** 30) + 0.5, -0.5 - float(2 ** 30), float(2 ** 53) - 1, 1 - float(2 ** 53),
+             float(2 ** 53), -float(2 ** 53), float(2 ** 53) + 2, -2 - float(2 ** 53), 1e18, -1e18, 2.0 ** 63, -(2.0 ** 63),
+             2.0 ** 64, -(2.0 ** 64), 1e30, -1e30, float("inf"), float("-inf"), float("nan")]
+    for n in sizes:
+        for neg in (False, True):
+            for kind in ("min", "max", "rand"):
+                for _ in range((1 if quick else 4) if kind == "rand" else 1):
+                    i = ii_val(ii_base(rng, n, kind), neg)
+                    for f in small:
+                        add(f, i, "class/n=%d" % n)
+                    add(rng.uniform(-1, 1) * 2.0 ** rng.randrange(0, 31), i, "class/n=%d" % n)
+    # (1) boundary floats x boundary ints
+    if quick:
+        for f in FB:
+            for i in rng.sample(IB, 18):
+                add(f, i, "boundary")
+        for i in IB:
+            for f in rng.sample(FB, 10):
+                add(f, i, "boundary")
+    else:
+        for f in FB:
+            for i in IB:
+                add(f, i, "boundary")
+    # (3) neighbours of equal values
+    ints = set(IB)
+    for n in sizes:
+        for _ in range(3 if quick else 30):
+            ints.add(ii_val(ii_base(rng, n, "rand"), rng.random() < 0.5))
+    for i in sorted(ints):
+        try:
+            f = float(i)
+        except OverflowError:
+            continue
+        for g in (f, _nextafter(f, True), _nextafter(f, False)):
+            if g == g and abs(g) != float("inf"):
+                add(g, i, "near-equal")
+    for f in FB:
+        if f != f or abs(f) == float("inf"):
+            continue
+        t = int(f)
+        for i in (t - 1, t, t + 1):
+            add(f, i, "near-equal")
+    # (4) random float / int of nearby magnitude
+    for _ in range(300 if quick else 20000):
+        e = rng.choice([rng.randrange(-3, 70), rng.randrange(-3, 130), rng.randrange(25, 36), rng.randrange(50, 66)])
+        f = (rng.random() + 1.0) * 2.0 ** e * rng.choice((1, -1))
+        i = int(f) + rng.choice((0, 0, 1, -1, rng.randrange(-1000, 1000)))
+        if rng.random() < 0.3:
+            i = rng.choice((1, -1)) * rng.getrandbits(rng.randrange(1, 130))
+        add(f, i, "random")
+    # (5) float against float (the dispatcher's own branch)
+    fs = [0.0, -0.0, 1.5, -1.5, 2.0 ** 53, 2.0 ** 53 + 2, 1e300, -1e300, 5e-324, float("inf"), float("-inf"), float("nan")]
+    for a in fs:
+        for b in fs:
+            P.append(("ff", a, b, "float-float"))
+    return P
+
+
+def check_floatint(ctx, model, quick, built):
+    """built: {cfg: module name}; three-way: compiled helper / extracted model / exact integer arithmetic
+    (and CPython's own operators must equal the latter)"""
+    import time, operator
+    t_start = time.time()
+    pairs = gen_float_int_pairs(ctx.rng, quick)
+    src = ii_source()
+    toks = []
+    for d, a, b, fam in pairs:
+        ta = f_tok(a) if isinstance(a, float) else (str(a), str(a))
+        tb = f_tok(b) if isinstance(b, float) else (str(b), str(b))
+        toks.append((ta, tb))
+    spec = {"fns": {d: fi_fn_names(d) for d in FI_FNS}, "pairs": [[d, ta[0], tb[0]] for (d, _, _, _), (ta, tb) in zip(pairs, toks)]}
+    import concurrent.futures as cf
+    with cf.ThreadPoolExecutor(max_workers=2) as ex:
+        futs = {cfg: ex.submit(cybuild.run_script, FI_WORKER, ctx.workdir, dict(spec, module=modname), 900, None, None,
+                               "drv_fi_%s.py" % cfg) for cfg, modname in built.items()}
+        q = []
+        for cfg in built:
+            for (d, a, b, fam), (ta, tb) in zip(pairs, toks):
+                q.append("nrow %s 0 %s%s %s%s" % (cfg, d[0], ta[1], d[1], tb[1]))
+        mres_all = model.batch(q)
+        runs = {cfg: f.result() for cfg, f in futs.items()}
+    exp_all = []
+    for d, a, b, fam in pairs:
+        e = exact_ops(a, b)
+        c = pyops(a, b)
+        if e != c:
+            ctx.corr_break("floatint:oracle", {"part": "floatint", "a": repr(a), "b": repr(b)}, c, e)
+        exp_all.append(e)
+    for ci, (cfg, modname) in enumerate(built.items()):
+        r = runs[cfg]
+        res = r["json"]
+        if res is None or len(res) != len(pairs):
+            ctx.corr_break("floatint worker " + cfg, modname, (r["err"] or r["out"])[-1500:], "runs")
+            continue
+        mres = mres_all[ci * len(pairs):(ci + 1) * len(pairs)]
+        for k, (d, a, b, fam) in enumerate(pairs):
+            names = spec["fns"][d]
+            got = res[k]
+            parts = mres[k].split()
+            if len(parts) != 2 or len(parts[0]) != 6:
+                ctx.corr_break("floatint:model", {"part": "floatint", "query": q[ci * len(pairs) + k]}, mres[k], "a row")
+                continue
+            mrow, br = parts
+            exp = exp_all[k]
+            branch = FI_BRANCH.get(int(br), br)
+            stratum = "floatint/%s/%s/%s/%s" % (cfg, d, branch, fam.split("/")[0])
+            inp0 = {"part": "floatint", "config": cfg, "dir": d, "a": toks[k][0][0], "b": toks[k][1][0],
+                    "a_repr": repr(a), "b_repr": repr(b), "family": fam}
+            ctx.count(stratum, len(names), distinct_sigs=[(cfg, d, toks[k][0][0], toks[k][1][0], oi) for oi in range(6)])
+            if len(got) != len(names):
+                ctx.corr_break("floatint:worker-row", inp0, got, "%d results" % len(names))
+                continue
+            for j, fname in enumerate(names):
+                oi = j // (2 * len(FI_FNS[d]))
+                g = got[j]
+                if g == mrow[oi] and g == exp[oi]:
+                    continue
+                inp = dict(inp0, func=fname, source=_ii_fn_source(src, fname), op=II_OPS[oi][1])
+                if g != mrow[oi]:
+                    ctx.corr_break("floatint:" + fname, inp, g, mrow[oi])
+                if g != exp[oi]:
+                    ctx.fail("pyobject_compare_float_int_wrong_result", inp, g, exp[oi],
+                             note="model=%s branch=%s; exactly: %r %s %r is %s" % (mrow[oi], branch, a, II_OPS[oi][1], b, exp[oi] == "1"))
+    ctx.extra["floatint_seconds"] = round(time.time() - t_start, 1)
+    ctx.extra["floatint_pairs"] = len(pairs)
+
+
+# ------------------------------------------------------------------------------------------------
 DUP_SRC = '''
 def t_dup(char b):
     if b in b"ab":
@@ -1744,6 +1982,9 @@ def run(ctx):
     # ---- part 4: the int-int branch of PyObjectCompare, internals on (cfg 312) and off (noint)
     check_intint(ctx, ctx.model("cmpint"), quick, {"312": "c19_ii", "noint": "c19_iin"})
 
+    # ---- part 5: the float-int / int-float / float-float branches, same two builds
+    check_floatint(ctx, ctx.model("cmpfloat"), quick, {"312": "c19_ii", "noint": "c19_iin"})
+
     # ---- differential probes of the object comparison helpers
     dc = diff_cases()
     r1 = cybuild.run_script(DIFF_DRIVER, ctx.workdir, {"mode": "cy", "cases": dc}, name="drv_diff_cy.py")
@@ -1785,6 +2026,16 @@ def replay(ctx, obj):
                   "if %r: args[1] = args[0]\nprint(json.dumps(repr(m.%s(*args))))\n"
                   % (name, bool(inp.get("same_object")), inp["func"]))
         r = cybuild.run_script(script, ctx.workdir, args, name="drv_replay_ii.py")
+        print("replayed: compiled ->", r["json"], (r["err"] or "")[-300:])
+        return
+    if inp.get("part") == "floatint" and src and "a" in inp:
+        name = "c19_replay_fi"
+        cybuild.build(name, "# cython: language_level=3\n" + src, ctx.workdir,
+                      macros=(["CYTHON_USE_PYLONG_INTERNALS=0"] if inp.get("config") == "noint" else None))
+        script = ("import sys, json, %s as m\nd, a, b = json.load(sys.stdin)\n"
+                  "mk = lambda k, s: (float(s) if s in ('nan', 'inf', '-inf') else float.fromhex(s)) if k == 'f' else int(s)\n"
+                  "print(json.dumps(repr(m.%s(mk(d[0], a), mk(d[1], b)))))\n" % (name, inp["func"]))
+        r = cybuild.run_script(script, ctx.workdir, [inp["dir"], inp["a"], inp["b"]], name="drv_replay_fi.py")
         print("replayed: compiled ->", r["json"], (r["err"] or "")[-300:])
         return
     if not src or inp.get("part") not in ("in_literal", "cascade"):
